@@ -11,8 +11,9 @@ Every scenario runs under BOTH subsystems.
   returned trigger, virtual exit time and the tables afterwards must be equal;
 * property (verdict): an independent Python oracle computes the specified exit (first of check-now / first decisive
   occurrence / deadline anchored at the call) and demands tables after == tables before on EVERY ended exit
-  (return, exception, cancellation).  All six former deviations are fixed in /repo (C15-F1/F4 a3cf272, F2 d8d17a4,
-  F3 74d9745, F5 3b0ef9c, F6 28f0376): the oracle demands the repaired behaviour, no signature excuses anything, and
+  (return, exception, cancellation).  All former deviations are fixed in /repo (C15-F1/F4 a3cf272, F2 d8d17a4,
+  F3 74d9745, F5 3b0ef9c, F6 28f0376, F7 04e4533, F8 'startup'/'shutdown' entries): the oracle demands the repaired
+  behaviour, no signature excuses anything, and
   the former witnesses stay in WITNESSES as regression cases.
 """
 import json
@@ -24,7 +25,8 @@ from common import Case, sx
 
 PROP = "C15"
 RULE = ("scenario = wait_until arguments (state_trigger expr over one variable with check_now default/True/False, "
-        "time_trigger once(absolute, possibly expired)/once(now+d), event_trigger with optional filter, mqtt_trigger, "
+        "time_trigger once(absolute, possibly expired)/once(now+d) with 'startup'/'shutdown' words or the empty list, "
+        "event_trigger with optional filter, mqtt_trigger, "
         "timeout None/0/1/2.5/4; expressions may raise or fail to parse) x history (<=3 occurrences before, <=6 after "
         "the call, state changes and events on a 0.5 s grid that never coincides with a deadline) x cancellation "
         "(none or at one grid instant; thorough tier: every instant) x pre-existing subscribers; both subsystems. "
@@ -133,6 +135,16 @@ def gen_scenario(rng):
             cfg[k]["as_list"] = True
     if cfg["time"] and rng.random() < 0.4:
         cfg["time"] = cfg["time"] + [rng.choice(["list", "list+expired"])]
+    # 'startup' / 'shutdown' words in the time_trigger list (they denote no instant and are ignored), next to a
+    # specification or alone; the empty list
+    if cfg["time"] and rng.random() < 0.3:
+        r = rng.random()
+        cfg["entries"] = {"startup": r < 0.6, "shutdown": r >= 0.4, "front": rng.random() < 0.5}
+    elif not cfg["time"] and rng.random() < 0.12:
+        r = rng.random()
+        cfg["time"] = ["abs", 0, "entries-only"]
+        cfg["entries"] = ({"startup": True, "shutdown": False, "empty": True} if r < 0.25 else
+                          {"startup": r < 0.7, "shutdown": r >= 0.5, "front": True})
     call = rng.choice([1.1, 2.1])
     tl = []
     v = rng.choice([0, 1, 5, 6]) if holds else rng.randint(0, 6)
@@ -231,13 +243,29 @@ def _raw(tag, call_text, timeline, expect):
     return w
 
 
-# argument values the model does not express (negative timeout, 'startup' / 'shutdown' entries): judged by the oracle only
+# argument values the model does not express (negative timeout): judged by the oracle only
 ORACLE_ONLY = [
     _raw("neg-timeout", "task.wait_until(event_trigger='e', timeout=-1)", [[2.25, ["e", 4]]], ["ret", 1100, "timeout"]),
     _raw("neg-timeout", "task.wait_until(timeout=-1)", [], ["ret", 1100, "timeout"]),
-    _raw("startup-entry", "task.wait_until(time_trigger=['startup', 'once(2024/6/3 12:00:03)'])", [], ["ret", 3000, "time"]),
-    _raw("shutdown-entry", "task.wait_until(time_trigger=['shutdown'], event_trigger='e')", [[2.25, ["e", 2]]],
-         ["ret", 2250, "event 2"]),
+]
+
+# 'startup' / 'shutdown' entries of the time_trigger list (finding C15-F8, fixed): model-backed regression cases – the
+# witnesses of C15_first_regress_new_entries and their neighbours (entry next to a live specification, entries alone
+# with and without a timeout, the empty list, a cancelled waiter)
+_SU = {"startup": True, "shutdown": False, "front": True}
+_SD = {"startup": False, "shutdown": True, "front": True}
+_EV = {"fn": None, "parse_ok": True}
+WITNESSES += [
+    _w({"time": ["abs", 3, "list"], "entries": _SU}, []),
+    _w({"time": ["abs", 0, "entries-only"], "entries": _SD, "event": _EV}, [[2.25, ["e", 2]]]),
+    _w({"time": ["abs", 0, "entries-only"], "entries": _SU, "event": _EV}, [[2.25, ["e", 2]]]),
+    _w({"time": ["abs", 0, "entries-only"], "entries": _SU}, []),
+    _w({"time": ["abs", 0, "entries-only"], "entries": {"startup": True, "shutdown": False, "empty": True}}, []),
+    _w({"time": ["abs", 0, "entries-only"], "entries": {"startup": True, "shutdown": False, "empty": True}, "timeout": 1}, []),
+    _w({"time": ["rel", 2.7, "list"], "entries": _SD, "timeout": 1}, []),
+    _w({"time": ["rel", 2.7, "list"], "entries": {"startup": True, "shutdown": True, "front": False}, "event": _EV}, [[1.4, ["c"]]]),
+    _w({"time": ["abs", 0, "entries-only"], "entries": _SU, "state": {"fn": ["eq", 5], "check_now": None, "parse_ok": True,
+                                                                      "hold": None, "hold_false": None}}, [], v_init=5),
 ]
 
 
@@ -301,10 +329,13 @@ def call_src(cfg):
     if tm:
         spec = f"once(2024/6/3 12:00:{tm[1]:02d})" if tm[0] == "abs" else f"once(now + {tm[1]}s)"
         form = tm[2] if len(tm) > 2 else None
-        if form == "list":
-            args.append(f"time_trigger={[spec]!r}")
-        elif form == "list+expired":
-            args.append(f"time_trigger={['once(2024/6/3 11:59:58)', spec, 'once(2024/6/3 12:00:00)']!r}")
+        en = cfg.get("entries")
+        lst = {"entries-only": [], "list+expired": ['once(2024/6/3 11:59:58)', spec, 'once(2024/6/3 12:00:00)']}.get(form, [spec])
+        if en and not en.get("empty"):
+            words = (["startup"] if en["startup"] else []) + (["shutdown"] if en["shutdown"] else [])
+            lst = (words + lst) if en.get("front") else (words[:1] + lst + words[1:])
+        if en or form is not None:
+            args.append(f"time_trigger={lst!r}")
         else:
             args.append(f"time_trigger={spec!r}")
     ev = cfg["event"]
@@ -496,7 +527,9 @@ def build_line(p, before):
     mq_sx = "none" if not mq else ["mq", 1 if mq["parse_ok"] else 0]
     to_sx = "none" if cfg["timeout"] is None else ms(cfg["timeout"])
     hist = [[ms(t), [it[0]] + ([it[1]] if len(it) > 1 else [])] for t, it in p["timeline"]]
-    return "C15 " + sx(["L" if p["legacy"] else "N", ["cfg", st_sx, tm_sx, ev_sx, mq_sx, to_sx], ["tb"] + list(before),
+    en = cfg.get("entries")
+    en_sx = [["en", 1 if en["startup"] else 0, 1 if en["shutdown"] else 0]] if en else []
+    return "C15 " + sx(["L" if p["legacy"] else "N", ["cfg", st_sx, tm_sx, ev_sx, mq_sx, to_sx] + en_sx, ["tb"] + list(before),
                         p["v_init"], ms(p["call"]), ["hist"] + hist])
 
 
@@ -678,7 +711,6 @@ def verdict(c):
 
 SIGS = [
     (r"^new: neg-timeout: exit differs", "new: a negative timeout never expires when another trigger is given"),
-    (r"^new: (startup|shutdown)-entry: exit differs", "new: 'startup' / 'shutdown' entries of time_trigger are acted upon inside task.wait_until"),
 ]
 
 
@@ -715,6 +747,11 @@ def extra_coverage(cases):
             args["state_list_of_two"] = args.get("state_list_of_two", 0) + 1
         if cfg["time"] and len(cfg["time"]) > 2:
             args["time_" + cfg["time"][2]] = args.get("time_" + cfg["time"][2], 0) + 1
+        if cfg.get("entries"):
+            en = cfg["entries"]
+            k = "time_trigger_empty_list" if en.get("empty") else "time_trigger_entry_" + "+".join(
+                w for w in ("startup", "shutdown") if en[w])
+            args[k] = args.get(k, 0) + 1
         if cfg["timeout"] is not None and 0 < cfg["timeout"] < 0.01:
             args["timeout_tiny"] = args.get("timeout_tiny", 0) + 1
         if isinstance(cfg["timeout"], float) and cfg["timeout"] == 0:
